@@ -340,6 +340,8 @@ func main() {
 			fmt.Fprintln(os.Stderr, err)
 			os.Exit(1)
 		}
+	case "child":
+		childMain(os.Args[2], realStdout)
 	case "probe":
 		probe(os.Args[2], realStdout)
 	default:
